@@ -130,7 +130,7 @@ def bounds(tier):
             "atoms": list(T.ATOMS), "keys": list(T.KEYS)}
 
 
-BIG_SLICES = 6
+BIG_SLICES = 2
 
 
 def shards(tier):
@@ -191,6 +191,8 @@ def _space(lopt, mopt, depth, width):
     k = (lopt.nullable, bool(lopt.afd_effective and lopt.delim), bool(lopt.optional), bool(mopt.optional), depth, width)
     s = _SPACES.get(k)
     if s is None:
+        if len(_SPACES) >= 2:
+            _SPACES.clear()             # the size-5 value lists are large; keep at most two spaces alive
         s = _SPACES[k] = T.DataSpace(lopt, mopt, depth, width)
     return s
 
@@ -229,8 +231,8 @@ def judge(parser, lopt, mopt, data, layout_name, fd_mode, acc):
     root = None
     try:
         root = parser.parse(text)
-    except impl.ParsingError:
-        err = "ParsingError"
+    except impl.Error:
+        err = "ParsingError"            # any error of the parser's own hierarchy counts as a rejection
     except Exception as e:  # noqa
         return ("exception", feats, ("C05:exception:" + type(e).__name__,
                                      f"parse raised {type(e).__name__}: {str(e)[:200]}", text, exp))
